@@ -242,6 +242,26 @@ where
         "sample() = {idx} for u = {r:e}, but the cdf interval of that category is [{lo:e}, {hi:e}] (probs {:?})",
         probs
     );
+    // drawing is not an update: the stored probabilities (hence logp) are what they were, and
+    // later draws from the same object still never land on a zero-probability category
+    ensure!(
+        cat.probs.len() == n && cat.probs.iter().zip(&probs).all(|(a, b)| a.f().to_bits() == b.f().to_bits()),
+        "sample-mutates-probs",
+        "after sample() (u = {r:e}) the stored probabilities changed from {:?} to {:?}",
+        probs,
+        cat.probs
+    );
+    for extra in 0..3 {
+        let j = cat.sample();
+        ensure!(j < n && probs[j].f() > 0.0, "sample-zero-prob later-draw", "draw {} after the crafted one returned category {j} with probability {:?} (probs {:?})", extra + 2, probs.get(j), probs);
+    }
+    ensure!(
+        cat.probs.iter().zip(&probs).all(|(a, b)| a.f().to_bits() == b.f().to_bits()),
+        "sample-mutates-probs",
+        "after four draws the stored probabilities changed from {:?} to {:?}",
+        probs,
+        cat.probs
+    );
     // classification
     let zeros = probs.iter().filter(|p| p.f() == 0.0).count();
     let pos = n - zeros;
